@@ -45,3 +45,22 @@ pub fn c01_order_deque_fifo() {
 pub(crate) fn stub_push_front_unreachable<T>(_this: &mut Deque, _buf: &mut Buffer<T>, _value: T) {
     panic!("UNREACHABLE-STUB Deque::push_front")
 }
+
+/// Queue-content model for `Deque::pop_front`: the deque holds exactly one frame, of a
+/// non-DATA kind that takes pop_frame's generic arm.  (Read back through the slab, the
+/// frame's variant is not a constant for the symbolic executor, which then explores the
+/// DATA, PUSH_PROMISE and every drop-glue arm: 10.9k VCCs, > 14 GB.  FIFO behaviour of the
+/// real `Deque` is C01.order.deque_fifo.)  `T` is `Frame<SymBuf>` in every caller.
+pub(crate) fn stub_pop_front_one_control_frame<T>(this: &mut Deque, _buf: &mut Buffer<T>) -> Option<T> {
+    match this.indices.take() {
+        Some(_) => {
+            let f: crate::frame::Frame<crate::proto::streams::verif_h::SymBuf> =
+                crate::frame::WindowUpdate::new(crate::frame::StreamId::from(1), 1).into();
+            assert!(std::mem::size_of::<T>() == std::mem::size_of_val(&f));
+            let t = unsafe { std::mem::transmute_copy::<_, T>(&f) };
+            std::mem::forget(f);
+            Some(t)
+        }
+        None => None,
+    }
+}
